@@ -51,11 +51,12 @@ def _recursion():
             self.start = start
 
         def resume(self, history):
-            sched.point(('enter', 'resume', len(history)))
             v = history[-1] + 2 if history else self.start
             while v < self.start + 6:
-                sched.point(('item', v))
-                yield v
+                sched.point(('enter', 'gen'))    # the wrapped generator is being advanced
+                item = v
+                sched.point(('exit', 'gen'))
+                yield item
                 v += 2
     R.__module__ = 'vmc.checks.c18_sched'
     return R(1)
@@ -137,7 +138,7 @@ def judge(scn, ex, args):
         return 'a later call returned {!r} instead of {!r}'.format(ex.after, expected(scn, 5))
     inside = {}
     for w, tag in ex.trace:
-        if tag[0] == 'enter' and tag[1] != 'resume':
+        if tag[0] == 'enter':
             key = tag[1]
             if key in inside.values() and inside.get(w) != key:
                 other = [o for o, k in inside.items() if k == key]
@@ -169,7 +170,7 @@ def run_scenario(scn, res, only_prefix=None):
         res.count('traces_validated_against_impl')
         res.distinct('states', repr([(w, t) for w, t in ex.trace]))
         nexec = sum(1 for w, t in ex.trace if t[0] == 'enter')
-        res.distinct('distinct_outcomes', repr((scn['what'], scn['pre'], nexec, tuple(w for w, t in ex.trace if t[0] in ('enter', 'item')))))
+        res.distinct('distinct_outcomes', repr((scn['what'], scn['pre'], nexec, tuple(w for w, t in ex.trace if t[0] == 'enter'))))
         res.maximum('max_points', len(ex.points))
         if ex.preemptions:
             res.distinct('distinct_nontrivial', json.dumps([scn, ex.choices]))
